@@ -34,6 +34,12 @@ def obligations(tier):
     SPLITS["envelope_b"] = ("pn", 3)
     obs = []
     for a in AREAS:
+        if a == "authentication":
+            from props.c02 import AUTH_SPLIT
+
+            for name, fix in AUTH_SPLIT:
+                obs.append(Ob(f"roundtrip_{a}{name}", "E1", "h_roundtrip", {"area": a, "fix": fix}, 1200, f"area {a} {fix}: bytes reproduced, parse fixpoint, leaf fidelity", weight=100))
+            continue
         if a in SPLITS:
             sel, n = SPLITS[a]
             for i in range(n):
